@@ -47,7 +47,7 @@ def inflate_table_rules(ck, P):
                 over = True      # (left << 1).checked_sub(count) is None
         gs = [g for g, lvl in sig.backward_guards(fn, b, depth=3)]
         if any(g.rel == "Le" and 1 in g.lo_consts and "left" in g.hi_names for g in gs) or any(g.rel == "Ne" and "left" in g.names and 0 in g.consts for g in gs):
-            if any(g.rel == "Ne" and "max" in g.names and 1 in g.consts for g in gs) or any("Codes" in (g.variants or ()) or "Codes" in g.names for g in gs):
+            if any(g.rel == "Ne" and "max" in g.names and 1 in g.consts for g in gs) and any("Codes" in (g.variants or ()) or "Codes" in g.names for g in gs):
                 inc = True
     ck.decide(over, R, "over-subscribed", "(left << 1).checked_sub(count[len]) failing is InvalidCode", "the over-subscription test of inflate_table is gone", where(fn))
     ck.decide(inc, R, "incomplete", "left > 0 && (Codes || max != 1) is InvalidCode", "the incomplete-set test of inflate_table lost a condition", where(fn))
